@@ -4,6 +4,7 @@ from __future__ import annotations
 import ast
 
 from ..core import (AnalysisError, FuncInfo, Project, attr_chain, const_str, expand, local_defs, term, unparse)
+from ..absint import MiniInterp, PyRaise, Unknown
 from ..patterns import AToken, Interp, Unsupported
 
 SC = "codelimit.common.Scanner"
@@ -89,7 +90,16 @@ def rule_R2(ctx, prj):
                    "whitespace are dropped, everything else is kept (defaults read from the signature)", floor=30)
     interp = Interp(prj)
     ft = prj.func(f"{SRC}:filter_tokens")
-    pred = ft.nested.get("predicate")
+
+    def hook(it, kind, f, args, kwargs, node, cur):
+        if kind == "getattr" and isinstance(f, AToken):
+            return ("atoken", f, args)          # args is the attribute name here
+        if kind == "call" and isinstance(f, tuple) and f and f[0] == "atoken":
+            try:
+                return interp.call_method(f[1], f[2], list(args))
+            except Unsupported as e:
+                raise Unknown(str(e))
+        return NotImplemented
     kinds = ["Text", "Whitespace", "Comment", "Comment.Single", "Comment.Multiline", "Comment.Preproc", "Comment.PreprocFile",
              "Comment.Hashbang", "Comment.Special", "Keyword", "Name", "Punctuation", "Operator", "Literal.String", "Other"]
     texts = {"empty": "", "whitespace-only": " \t", "newline": "\n", "has-non-whitespace": "x"}
@@ -98,16 +108,13 @@ def rule_R2(ctx, prj):
         for tn, tv in texts.items():
             tok = AToken(k, tv if not k.startswith("Comment") or tn != "has-non-whitespace" else "# c")
             try:
-                if pred is not None:
-                    kept = interp.run(pred, {pred.params()[0]: tok})
-                else:
-                    # comprehension condition inline
-                    rets = [r for r in ft.node.body if isinstance(r, ast.Return)]
-                    comp = rets[-1].value
-                    g = comp.generators[0]
-                    kept = all(interp.truth(interp.ev(c, {unparse(g.target): tok}, ft)) for c in g.ifs)
-            except Unsupported as e:
-                raise AnalysisError(f"filter_tokens predicate left the interpreted fragment: {e}")
+                res = MiniInterp(prj, hook).call(ft, [[tok]], {})
+                res = list(res.rest()) if hasattr(res, "rest") else res
+                if not isinstance(res, (list, tuple)) or len(res) > 1 or (res and res[0] is not tok):
+                    raise AnalysisError(f"filter_tokens([t]) evaluates to {res!r}: neither [] nor [t]")
+                kept = len(res) == 1
+            except (Unknown, PyRaise) as e:
+                raise AnalysisError(f"filter_tokens left the interpreted fragment: {e}")
             is_comment_kind = k.startswith("Comment")
             ws = k in ("Text", "Whitespace") and tn != "has-non-whitespace"
             want = not is_comment_kind and not ws
